@@ -277,7 +277,7 @@ def order_case(arg):
     cls, op, opts, lo = arg[:4]
     dim_cart = arg[4] if len(arg) > 4 else 1
     res = []
-    Ns = (16, 32, 64) if (cls != "cart" or dim_cart < 3) else (8, 16, 32)
+    Ns = (8, 16, 32) if (cls == "cart" and dim_cart == 3) else ((16, 32, 64) if (cls == "cyl" or (cls == "cart" and dim_cart == 2)) else (32, 64, 128))
     for N in Ns:
         if cls == "cart":
             grid = pde.CartesianGrid([[0.3, 2.3], [-1.0, 0.5], [0.2, 1.2]][:dim_cart], [N, max(2, N // 2), max(2, N // 2)][:dim_cart])
@@ -354,7 +354,8 @@ def check_order(ctx, case, res, leg="order"):
         if b > 1e-12 and a > 1e-12:
             obs.append(math.log2(a / b))
     ctx.monitor_evals += 1
-    ok = all(o >= exp - 0.25 for o in obs) and (errs[-1] < (0.02 if exp == 2.0 else 0.2))
+    # pre-asymptotic pairs may be lower; the finest pair decides, coarser pairs must not be far off
+    ok = (not obs or (obs[-1] >= exp - 0.25 and all(o >= exp - 0.6 for o in obs))) and (errs[-1] < (0.02 if exp == 2.0 else 0.2))
     ctx.hist("observed-order", f"{cls}:{op}:{round(min(obs), 1) if obs else 'exact'}")
     if not ok:
         ctx.monitor_fail(leg, {"cls": cls, "op": op, "opts": opts, "r_min": lo, "dim_cart": case[4] if len(case) > 4 else 1,
